@@ -904,7 +904,8 @@ _S3 = {
  "C02": "UPDATE: sos_global is proved (C02_Global / C02_Chirotope); the triage / stable / dot-product error constants are proved (C02_TriageError, C02_StableError, C02_DotProdError); the distance cascade is proved exact on Normalize outputs after repair D54 (C02_DistanceExact: compareDistances_exact, compareDistance_exact for 0 <= r2 <= 4).",
  "C03": "UPDATE: FloatSound is no longer a hypothesis: after repair D48 FullExactness is a THEOREM for all unit-ish finite points incl. +-0 coordinates (C03_FloatSound, C03_AllZeros: fullExactness); SignLaws are theorems of C02.",
  "C04": "UPDATE: ParityCocycle is a THEOREM for the exact geometry incl. shared vertices and +-0 twins (C04_Cocycle, C04_AllZeros); constructor / rotation / reversal theorems for all valid loops and parity theorems for tilings (C04_Tiling); CellLoopsTile 'exactly once' still needs the convexity fact count <= 2.",
- "C06": "UPDATE: the index construction is modelled bit-exactly and regenerated; I1 of the built index is PROVED for real uv geometry from the float error analysis of the clipping (C06_ClipFloat: build_I1_float, only FaceEdgesOK left); I3 and 'queries on the built index = brute force' under three named statements of exact geometry (C06_BuildI3), for cells with -0 coordinates too (C06_AllZeros).",
+ "C05": "UPDATE: for CAP regions Cap.IntersectsCell / ContainsCell are modelled bit-exactly (S2.CapCell, compared on every pred cap line), the exact algorithm is proved an iff, float soundness with slack 2^-44 is proved (final fall-through under CenterClear), coverings of caps end to end given the bound (C05_Cap); defect D59 found by this proof and repaired; D56 (Rect.IntersectsCell) repaired.",
+ "C06": "UPDATE: the index construction is modelled bit-exactly and regenerated; I1 of the built index is PROVED for real uv geometry from the float error analysis of the clipping (C06_ClipFloat: build_I1_float, only FaceEdgesOK left); I3 and 'queries on the built index = brute force' under three named statements of exact geometry (C06_BuildI3), for cells with -0 coordinates too (C06_AllZeros); face clipping: FaceEdgesOK proved except the re-projection branch of clipDestination, spherical I1 for points and same-face edges (C06_FaceClip).",
  "C07": "UPDATE: the two-index walk is modelled and regenerated; its raw boolean = exact crossing or wedge witness or centre shortcut (C07_WalkSound: walk_hasCrossingRelation_eq_exact); compareBoundary walk = exact relation in full; contains / intersects under the single necessary hypothesis CenterSound.",
  "C08": "UPDATE: for a point target the search theorems hold with NO abstract WorldOK at an explicit slack 2^-44 (C08_World: point_single, point_multi, point_multi_vs_bruteforce), from C12 distance_lower_bound, the C17 edge contract and I1; WorldOK / CellLB as first stated are FALSE of the real code (clipped far edges; limit-dependent edge value) and were replaced by the true SlackWorld; RegionsNested proved; x - e <= x is false for ChordAngle.Sub in general and proved for MaxError 0, +Inf, >= 2^-400 (C08_World2).",
  "C12": "UPDATE: the ContainsPoint margin is proved (C12_Margin, after repair D46); point-target Distance lower bound 2^-45, MaxDistance upper bound 2^-44 and ATTAINED (all branches, no proviso, after repair D58) are proved for all valid cells and unit-ish points (C12_Distance); BoundaryDistance, DistanceToEdge, DistanceToCell lower bounds / attained on the new bit-exact model CellEdgeM (C12_Distance2); Cell.CapBound modelled bit-exactly and proved to contain the exact cell (C12_CapBound); the judge's assumption 'the minimum between an arc and a convex quadrilateral is attained at a vertex' is now a theorem.",
